@@ -239,6 +239,7 @@ def run(repo: Repo, rep: Report, tier: str) -> None:
     _reuse4(repo, rep, "c16", {"R16.2": "R4.10"}, only=lambda subj: "visited bookkeeping" in subj)
     # R4.11: the transport forwards every caller kwarg except headers unchanged (an empty list / dict body is still a body)
     _reuse4(repo, rep, "c17", {"R17.3": "R4.11"})
+    _reuse4(repo, rep, "c17", {"R17.13": "R4.23"})
     _guarded(rep, rule_primary_content_type_is_declared, repo, rep, "R4.22")
     # R4.21: one awaited call issues exactly one request - the bundled transport has one send site, outside loops / handlers   [= R6.13]
     _reuse4(repo, rep, "c06", {"R6.13": "R4.21"})
